@@ -16,6 +16,13 @@ def normmod(m):
     return "builtins" if m in BUILTIN_ALIASES else m
 
 
+# the extension registry of spec/PickleVM.tla (ExtRegistry): EXT1/2/4 with this code resolve through find_class
+import copyreg as _copyreg  # noqa: E402
+
+if ("verif_sink", "ext_target") not in _copyreg._extension_registry:
+    _copyreg.add_extension("verif_sink", "ext_target", 64)
+
+
 class Stub:
     """inert stand-in for anything a pickle can name: callable, accepts state, never raises"""
 
@@ -207,6 +214,7 @@ _Rec.dispatch = {k: _wrap(f, k) for k, f in pickle._Unpickler.dispatch.items()}
 def run_ref(data):
     """-> dict(ok, steps, ev, res | exc)"""
     u = _Rec(data)
+    _copyreg._extension_cache.clear()       # the machine's per-process cache of resolved extension codes: every run starts cold
     try:
         r = u.load()
         u.check_stale(r)
